@@ -593,6 +593,8 @@ fn gen_sop(rng: &mut Rng, m: &RefArchive) -> SOp {
         _ => 4 * rng.range(1, 6),
     };
     let huge = |rng: &mut Rng| usize::MAX - rng.range(0, 8);
+    // annotation cells are usually 4-byte aligned, but any address with four bytes of room is accepted
+    let cell_addr = |rng: &mut Rng, max: usize| if rng.chance(1, 10) { rng.range(0, max) } else { (rng.range(0, max) / 4) * 4 };
     if rng.chance(1, 12) {
         return SOp::WriterSeq(gen_writer_seq(rng, m));
     }
@@ -619,12 +621,13 @@ fn gen_sop(rng: &mut Rng, m: &RefArchive) -> SOp {
             _ => SOp::Truncate(huge(rng)),
         },
         10 => {
-            let a = if rng.chance(1, 5) { size + aligned(rng, 8) } else { aligned(rng, size) };
+            // (one in four: the last cell boundary, which cuts a tail of 0..3 bytes)
+            let a = if rng.chance(1, 5) { size + aligned(rng, 8) } else if rng.chance(1, 4) { size & !3 } else { aligned(rng, size) };
             SOp::Truncate(a)
         }
         11 | 12 => {
             // c-string on a free cell
-            let cell = aligned(rng, size);
+            let cell = cell_addr(rng, size);
             if m.cell_ok(cell) && !m.occupied(cell) {
                 SOp::WriteCString(cell, gen_sjis(rng, 5), rng.bool())
             } else {
@@ -632,7 +635,7 @@ fn gen_sop(rng: &mut Rng, m: &RefArchive) -> SOp {
             }
         }
         13 | 14 => {
-            let cell = aligned(rng, size);
+            let cell = cell_addr(rng, size);
             if m.cell_ok(cell) && !m.ptrs.contains_key(&cell) && !m.cstr.contains_key(&cell) {
                 SOp::Cell(Op::WriteString(cell, Some(gen_sjis(rng, 5))))
             } else {
@@ -640,13 +643,15 @@ fn gen_sop(rng: &mut Rng, m: &RefArchive) -> SOp {
             }
         }
         15 | 16 => {
-            let cell = aligned(rng, size);
+            let cell = cell_addr(rng, size);
             if m.cell_ok(cell) && !m.text.contains_key(&cell) && !m.cstr.contains_key(&cell) {
                 let t = match rng.below(3) {
                     0 => size,
                     1 => rng.range(0, size),
                     _ => aligned(rng, size),
                 };
+                // a destination is an unvalidated number: now and then one far beyond the data
+                let t = if rng.chance(1, 25) { *rng.pick(&[(1usize << 63) + 0x40, (1usize << 63), (1usize << 62) + 4, (u32::MAX as usize) + 8, size + 400]) } else { t };
                 SOp::Cell(Op::WritePointer(cell, Some(t)))
             } else {
                 SOp::Cell(Op::DeleteString(cell))
